@@ -40,6 +40,11 @@ theorem fmt_len_le (bits precision : Nat) : (writeTrimmedNumber bits precision).
     have hl : dlen (shortest (absBits bits)).1 ≤ 17 := dlen_le_of_lt k17 (by decide)
     have hp := dlen_pos (shortest (absBits bits)).1
     rw [List.length_append]
+    clear hse k17 h2 h1 hs k1
+    generalize (toCharsFixed (shortest (absBits bits)).fst (1 - ↑(dlen (shortest (absBits bits)).fst)) (signOf bits)
+      precision).length = L at *
+    generalize (expSuffix ((shortest (absBits bits)).snd + ↑(dlen (shortest (absBits bits)).fst) - 1)).length = E at *
+    generalize dlen (shortest (absBits bits)).fst = dl at *
     omega
   | fixed =>
     simp only
@@ -54,10 +59,20 @@ theorem fmt_len_le (bits precision : Nat) : (writeTrimmedNumber bits precision).
     have hl : dlen (shortest (absBits bits)).1 ≤ 17 := dlen_le_of_lt k17 (by decide)
     have hp := dlen_pos (shortest (absBits bits)).1
     by_cases hq : 0 ≤ (shortest (absBits bits)).2
-    · have := fixed_int_digits (absBits bits) hu h2 hq
-      have := fi hq
+    · have g1 := fixed_int_digits (absBits bits) hu h2 hq
+      have g2 := fi hq
+      clear fl fi k17 h2 h1 hs k1 hu
+      generalize (toCharsFixed (shortest (absBits bits)).fst (shortest (absBits bits)).snd (signOf bits)
+        (adjPrecision (absBits bits) precision)).length = L at *
+      generalize dlen (shortest (absBits bits)).fst = dl at *
+      generalize (shortest (absBits bits)).snd = q at *
       omega
-    · have := fixed_frac_places (absBits bits) h1 (by omega)
+    · have g1 := fixed_frac_places (absBits bits) h1 (by omega)
+      clear fi k17 h2 h1 hs k1 hu
+      generalize (toCharsFixed (shortest (absBits bits)).fst (shortest (absBits bits)).snd (signOf bits)
+        (adjPrecision (absBits bits) precision)).length = L at *
+      generalize dlen (shortest (absBits bits)).fst = dl at *
+      generalize (shortest (absBits bits)).snd = q at *
       omega
 
 /-- non-vacuity / tightness: the bound 24 is reached -/
